@@ -7,8 +7,14 @@
    The coefficient loops below the entry points are CONTRACTS with an explicit hazard:
      V_mul R P Q   writes  pmulv (P) (Q)  into R when R is neither P nor Q, and  junk  otherwise
                    (the loop resizes and overwrites R while it still reads P and Q through iterators);
-     V_sqr, V_reverse_copy likewise.  add/sub/neg/assign/div are index based / read everything before the
+     V_sqr, V_reverse_copy, V_invmodpowx_body, V_multrunc (the iterator form of mul) likewise.
+                   add/sub/neg/assign/div by a coefficient are index based / read everything before the
                    destination is resized: atomic read-then-write steps.
+   div(Q,A,B) (givpoly1muldiv.inl:230-269) is modelled statement by statement (P_div): the two degree tests, the
+   constant-divisor branch with its local copy b0 of B[0], the fast division through reverse / invmodpowx / the
+   truncated product into the resized Q / reversein.  degree(d,P) also normalises P in place (const_cast +
+   setdegree, givpoly1misc.inl:105-116) without changing its value: the model keeps the caller's list and takes the
+   normal form at the reads that follow such a call (V_coef0, V_reverse_copy_n).
    The contracts on distinct objects are checked on every run by the alias harness (python polynomial
    specification of the call on distinct objects); the theorems (ProofsPoly.v) show that no entry point reaches a
    hazard, for every alias pattern, so removing a guard or swapping two assignments falsifies a theorem.
@@ -53,20 +59,33 @@ Section Values.
     end.
   Definition psubv (a b : poly) : poly := paddv a (pnegv b).
   Definition lead (a : poly) : Z := last a 0.
-  (* quotient of the Euclidean division, by fuel on the degree difference; b in normal form and non zero *)
-  Fixpoint pdiv_fuel (n : nat) (a b : poly) : poly :=
+  Definition pdeg1 (a : poly) : nat := length (strip0 a).               (* degree + 1; 0 for the zero polynomial *)
+  Definition pz (a : poly) : bool := (pdeg1 a =? 0)%nat.                 (* deg < 0 / isZero *)
+  Definition pc (a : poly) : bool := (pdeg1 a =? 1)%nat.                 (* deg = 0 *)
+  Definition ple1 (a : poly) : bool := (pdeg1 a <=? 1)%nat.              (* deg <= 0 *)
+  Definition pge (a b : poly) : bool := (pdeg1 b <=? pdeg1 a)%nat.       (* deg a >= deg b *)
+  Definition leadv (a : poly) : Z := lead (strip0 a).                    (* leadcoef: 0 for the zero polynomial *)
+  Definition pconst (c : Z) : poly := strip0 [c].                        (* assign(P, Degree(0), c) *)
+  Definition pdivsc (a : poly) (c : Z) : poly := strip0 (pscal (invmod c p) a).     (* div(R, P, u) / divin(R, u) *)
+  Definition set0 (a : poly) (c : Z) : poly := match a with [] => [c] | _ :: t => c :: t end.
+  (* std::vector::resize(n): the first n coefficients, zero filled *)
+  Definition ptrunc (n : nat) (a : poly) : poly := firstn n (a ++ repeat 0 n).
+  (* power series inverse of a modulo X^n (what invmodpowx's Newton iteration computes), one coefficient per round:
+     r is the running remainder (1 - a (g_0 + ... + g_{k-1} X^{k-1})) / X^k *)
+  Fixpoint pinvser (n : nat) (r a : poly) : poly :=
     match n with
     | O => []
-    | S n' =>
-      let a := strip0 a in
-      if (length a <? length b)%nat then []
-      else let d := (length a - length b)%nat in
-           let c := (lead a * invmod (lead b) p) mod p in
-           let t := repeat 0 d ++ [c] in
-           paddv t (pdiv_fuel n' (psubv a (pmulv t b)) b)
+    | S n' => let c := (hd 0 r * invmod (hd 0 a) p) mod p in c :: pinvser n' (tl (psubv r (pscal c a))) a
     end.
+  Definition pinvpowx (a : poly) (n : nat) : poly := strip0 (pinvser n [1] a).
+  Definition pdegx (a b : poly) : nat := S (pdeg1 a - pdeg1 b).          (* degX = degA - degB + 1 *)
+  (* div(Q,A,B) on values: the code's three routes (B non zero) *)
   Definition pdivv (a b : poly) : poly :=
-    let b := strip0 b in strip0 (pdiv_fuel (S (length a)) a b).
+    if pge a b then
+      if pc b then pdivsc a (hd 0 (strip0 b))
+      else strip0 (rev (ptrunc (pdegx a b)
+                          (pmulv (pinvpowx (strip0 (rev (strip0 b))) (pdegx a b)) (strip0 (rev (strip0 a))))))
+    else [].
   (* what a hazardous call leaves in its destination: anything but the right value; a concrete choice so that
      the model runs *)
   Definition junk (a b : poly) : poly := 1 :: 1 :: paddv a b.
@@ -82,8 +101,13 @@ Section Steps.
   Definition V_addin (r a : loc) : PM unit := V_add r r a.
   Definition V_subin (r a : loc) : PM unit := V_sub r r a.
   Definition V_negin (r : loc) : PM unit := V_neg r r.
-  Definition V_div (q a b : loc) : PM unit := x <-- pload a ;;; y <-- pload b ;;; pstor q (pdivv p x y).
   Definition V_reversein (r : loc) : PM unit := x <-- pload r ;;; pstor r (strip0 p (rev x)).
+  Definition V_zero (r : loc) : PM unit := pstor r [].                              (* assign(R, zero) *)
+  (* div(R,P,u), u a coefficient held in a local: R.resize(P.size()) then an index loop: R may be P *)
+  Definition V_divsc (r a : loc) (c : Z) : PM unit := x <-- pload a ;;; pstor r (pdivsc p x c).
+  (* B[0] of an object that degree() has just normalised *)
+  Definition V_coef0 (a : loc) : PM Z := x <-- pload a ;;; pret (hd 0 (strip0 p x)).
+  Definition V_resize (r : loc) (n : nat) : PM unit := z <-- pload r ;;; pstor r (ptrunc n z).       (* R.resize(n) *)
   (* contracts with a hazard *)
   Definition V_mul_body (r a b : loc) : PM unit :=
     x <-- pload a ;;; y <-- pload b ;;;
@@ -92,6 +116,17 @@ Section Steps.
     x <-- pload a ;;; pstor r (if loc_eqb r a then junk p x x else strip0 p (pmulv p x x)).
   Definition V_reverse_copy (r a : loc) : PM unit :=
     x <-- pload a ;;; pstor r (if loc_eqb r a then junk p x x else strip0 p (rev x)).
+  (* the same on an operand that degree() has just normalised *)
+  Definition V_reverse_copy_n (r a : loc) : PM unit :=
+    x <-- pload a ;;; pstor r (if loc_eqb r a then junk p x x else strip0 p (rev (strip0 p x))).
+  (* invmodpowx(G,A,l) after its guard: assign(G,one); inv(G[0],A[0]); Newton iterations that read A and rewrite G *)
+  Definition V_invmodpowx_body (g a : loc) (l : nat) : PM unit :=
+    x <-- pload a ;;; pstor g (if loc_eqb g a then junk p x x else pinvpowx p x l).
+  (* mul(R, R.begin(), R.end(), P, .., Q, ..) (givpoly1kara.inl:65,105): the product truncated / zero filled to the
+     CURRENT size of R, written through iterators while P and Q are read; no setdegree *)
+  Definition V_multrunc (r a b : loc) : PM unit :=
+    z <-- pload r ;;; x <-- pload a ;;; y <-- pload b ;;;
+    pstor r (if loc_eqb r a || loc_eqb r b then junk p x y else ptrunc (length z) (pmulv p x y)).
 
   (* ---------------------------------------------------------------- entry points (as in /repo's current tree) *)
   (* mul(R,P,Q): if (&R == &P || &R == &Q) { Rep T; mul(T,P,Q); return assign(R,T); } ... *)
@@ -103,6 +138,11 @@ Section Steps.
   (* reverse(P,Q): if (&P == &Q) return reversein(P); P.resize(Q.size()); reverse_copy(...) *)
   Definition P_reverse (r a : loc) : PM unit :=
     if loc_eqb r a then V_reversein r else V_reverse_copy r a.
+  Definition P_reverse_n (r a : loc) : PM unit :=
+    if loc_eqb r a then V_reversein r else V_reverse_copy_n r a.
+  (* invmodpowx(G,A,l): if (&G == &A) { Rep At; assign(At,A); return invmodpowx(G,At,l); } ... *)
+  Definition P_invmodpowx (g a : loc) (l : nat) : PM unit :=
+    if loc_eqb g a then V_assign (T 72) a ;;; V_invmodpowx_body g (T 72) l else V_invmodpowx_body g a l.
   (* mulin(R,P): Rep tmp; mul(tmp,R,P); assign(R,tmp) *)
   Definition P_mulin (r a : loc) : PM unit := P_mul (T 1) r a ;;; V_assign r (T 1).
   (* axpy(r,a,x,y): if (&r == &y) { Rep T; axpy(T,a,x,y); return assign(r,T); } return addin(mul(r,a,x), y) *)
@@ -121,12 +161,43 @@ Section Steps.
   Definition P_maxpyin (r a b : loc) : PM unit := P_mul (T 3) a b ;;; V_subin r (T 3).
   (* axmyin(r,a,x): maxpyin(r,a,x); return negin(r) *)
   Definition P_axmyin (r a x : loc) : PM unit := P_maxpyin r a x ;;; V_negin r.
+  (* div(Q,A,B), givpoly1muldiv.inl:230-269.   T = T 70, S = T 71
+       degree(degB,B); degree(degA,A);
+       if (degA < degB) return assign(Q, zero);
+       if (degB == 0) { const Type_t b0(B[0]); return div(Q, A, b0); }        -- b0 is copied BEFORE Q is written
+       degX = degA - degB + 1; Rep T, S;
+       reverse(T,B); invmodpowx(S,T,degX); reverse(T,A); Q.resize(degX); mul(Q, Q.begin(), Q.end(), S,.., T,..);
+       return reversein(Q) *)
+  Definition P_div_gen (q a b : loc) (l : nat) : PM unit :=
+    P_reverse_n (T 70) b ;;; P_invmodpowx (T 71) (T 70) l ;;; P_reverse_n (T 70) a ;;;
+    V_resize q l ;;; V_multrunc q (T 71) (T 70) ;;; V_reversein q.
+  Definition P_div (q a b : loc) : PM unit :=
+    y <-- pload b ;;; x <-- pload a ;;;
+    if pge p x y then
+      if pc p y then b0 <-- V_coef0 b ;;; V_divsc q a b0
+      else P_div_gen q a b (pdegx p x y)
+    else V_zero q.
+  (* the body before repair 1eb01b7: `return div(Q, A, B[0])` — the divisor is a REFERENCE to the cell 0 of B.
+     div(R,P,u): R.resize(P.size()); for (i) R[i] = P[i] / u — u is read at every round; round 0 is the only one that
+     can change it (when R is B) *)
+  Definition V_cell0 (a : loc) : PM Z := x <-- pload a ;;; pret (hd 0 x mod p).
+  Definition V_divsc_byref (r a ub : loc) : PM unit :=
+    x <-- pload a ;;;
+    z <-- pload r ;;; pstor r (ptrunc (length x) z) ;;;                                             (* R.resize(sP) *)
+    u <-- V_cell0 ub ;;; z <-- pload r ;;; pstor r (set0 z ((invmod u p * hd 0 x) mod p)) ;;;        (* i = 0 *)
+    u <-- V_cell0 ub ;;; z <-- pload r ;;; pstor r (strip0 p (hd 0 z :: tl (pscal p (invmod u p) x))).   (* i >= 1; setdegree *)
+  Definition P_div_b0_reverted (q a b : loc) : PM unit :=
+    y <-- pload b ;;; x <-- pload a ;;;
+    if pge p x y then
+      if pc p y then V_divsc_byref q a b
+      else P_div_gen q a b (pdegx p x y)
+    else V_zero q.
   (* divmod(Q,R,A,B): if (an output is A or B) { Rep Qt, Rt; divmod(Qt,Rt,A,B); assign(Q,Qt); return assign(R,Rt); }
                        div(Q,A,B); return maxpy(R,Q,B,A) *)
   Definition P_divmod (q r a b : loc) : PM unit :=
     if loc_eqb q a || loc_eqb q b || loc_eqb r a || loc_eqb r b then
-      (V_div (T 5) a b ;;; P_maxpy (T 6) (T 5) b a) ;;; V_assign q (T 5) ;;; V_assign r (T 6)
-    else V_div q a b ;;; P_maxpy r q b a.
+      (P_div (T 5) a b ;;; P_maxpy (T 6) (T 5) b a) ;;; V_assign q (T 5) ;;; V_assign r (T 6)
+    else P_div q a b ;;; P_maxpy r q b a.
   (* mod(R,A,B): Rep Q; divmod(Q,R,A,B); return R *)
   Definition P_mod (r a b : loc) : PM unit := P_divmod (T 7) r a b.
 
@@ -174,13 +245,15 @@ End Steps.
 Definition pmk4 (ir ia ib ic : positive) (vr va vb vc : poly) : pstore :=
   pupd (pupd (pupd (pupd (fun _ => []) (U ic) vc) (U ib) vb) (U ia) va) (U ir) vr.
 Definition pop4 := loc -> loc -> loc -> loc -> PM unit.
-(* 0 mul 1 sqr 2 reverse 3 mulin 4 axpy 5 axmy 6 maxpy 7 axpyin 8 maxpyin 9 axmyin 10 mod 11 gcd | divmod apart *)
+(* 0 mul 1 sqr 2 reverse 3 mulin 4 axpy 5 axmy 6 maxpy 7 axpyin 8 maxpyin 9 axmyin 10 mod 12 div(r,a,b)
+   13 div(r,a,b) before 1eb01b7   11, 14.. gcd | divmod apart *)
 Definition poly_op (p : Z) (op : nat) : pop4 :=
   match op with
   | 0 => fun r a b _ => P_mul p r a b | 1 => fun r a _ _ => P_sqr p r a | 2 => fun r a _ _ => P_reverse p r a
   | 3 => fun r a _ _ => P_mulin p r a | 4 => P_axpy p | 5 => P_axmy p | 6 => P_maxpy p
   | 7 => fun r a b _ => P_axpyin p r a b | 8 => fun r a b _ => P_maxpyin p r a b | 9 => fun r a b _ => P_axmyin p r a b
-  | 10 => fun r a b _ => P_mod p r a b | _ => fun r a b _ => P_gcd p r a b
+  | 10 => fun r a b _ => P_mod p r a b | 12 => fun r a b _ => P_div p r a b
+  | 13 => fun r a b _ => P_div_b0_reverted p r a b | _ => fun r a b _ => P_gcd p r a b
   end%nat.
 Definition run_poly (p : Z) (op : nat) (ir ia ib ic : positive) (vr va vb vc : poly) : list poly :=
   let h := pexec (poly_op p op (U ir) (U ia) (U ib) (U ic)) (pmk4 ir ia ib ic vr va vb vc) in
